@@ -3,6 +3,10 @@ check("C02", "exploration", "runtime differential monitor: translate_slice vs tr
       "Held on every (slice run, reader run) pair executed: millions of pairs per run over generated valid streams, mutants, splices, random bytes and EVERY token sequence up to length 4 (quick) / 5 (thorough) of each format's alphabet, under one-byte, fixed, random and boundary-cut read schedules. A finite exploration of an unbounded input space: exhaustive only for the short token sequences.",
       "Trusts the harness's scheduling reader (never returns 0 early, never over-fills) and catch_unwind; compares verdict class, output bytes and prefix-comparability, not error text.",
       "DESIGN.md 3/C02")
+check("C01", "exploration", "runtime oracle: independent reader of the target format applied to xt's output for generated documents x hostile spellings",
+      "Held on every translation executed (about 10^6 per quick run, 5*10^7 thorough): generated common-model documents aimed at the hostile classes (type look-alike strings, YAML indicators, control/BOM/non-character/astral code points, integer boundaries of every width, 17-digit and special floats, depth to 64, MessagePack width thresholds) x 16 format pairs x 3 spellings x slice/scheduled reader x explicit/detected. Sampling of an unbounded space; no exhaustiveness claimed.",
+      "Trusts the harness's independent readers (hand-written JSON/MessagePack decoders, libyaml events + own YAML 1.2 core schema, toml_edit walk) and spellers, cross-validated at start-up; libyaml's scanner is shared with xt. TOML order is accepted if it is a stable partition by table-ness (the toml crate's writer order) or the identity.",
+      "DESIGN.md 3/C01")
 
 for pid in ["C01","C03","C04","C05","C06","C07","C08","C09","C10","C11","C12","C13","C14","C15","C16","C17","C18"]:
     if pid not in CHECKS:
